@@ -52,10 +52,12 @@ class Recorder:
             for s in res:  # perturb the stage return: inputs of the selection code under test
                 s.score += rec.perturb()
             rec.cn = [(s.score, s._solution_nice()) for s in res]
+            rec.cn_objs = list(res)
             return res
 
         def e_major(gene, coverage, cn_solution, *a, **k):
             res = rec.orig[1](gene, coverage, cn_solution, *a, **k)
+            rec.major_call = (gene, coverage, a, {kk: v for kk, v in k.items() if kk != "identifier"})
             if rec.fail_stage == "major":
                 res = []
             for s in res:
@@ -176,6 +178,25 @@ def oracle(case, out):
         why.append("solutions reported although a stage returned nothing")
         return why
     min_cn = min(s for s, _ in rec.cn)
+    # every structure the copy-number stage returned is a source of candidates: one that was never handed to the major
+    # stage is explored here, and none of its major solutions may lie within the gap of the best major score
+    explored = {m["cn_nice"] for m in rec.majors}
+    missing = [c for c in getattr(rec, "cn_objs", []) if c._solution_nice() not in explored]
+    if missing and getattr(rec, "major_call", None) and rec.fail_stage is None:
+        from aldy import major as _major
+        gene_, cov_, a_, k_ = rec.major_call
+        carried = [sc + (m["cn_score"] - min_cn) for m in rec.majors for sc, _ in m["sols"]]
+        for c in missing:
+            try:
+                extra = _major.estimate_major(gene_, cov_, c, *a_, **k_)
+            except Exception:
+                extra = []
+            for s_ in extra:
+                cs = s_.score + (c.score - min_cn)
+                if carried and cs - min(carried + [cs]) - gap < 0.01 - 1e-6:
+                    why.append(f"structure {c._solution_nice()} (score {c.score:.4f}) was returned by the copy-number stage but never handed to the major stage, although its major solution "
+                               f"{s_._solution_nice()} (carried score {cs:.4f}) lies within the gap of the best major score {min(carried + [cs]):.4f}")
+                    break
     # combined score of each refined candidate
     sel_min = min(m[0] for m in rec.selected_view)
     cands = []
